@@ -339,12 +339,12 @@ const MIX_SUB: Mix = Mix { input: [50, 20, 12, 10, 8], max_events: 6, max_decode
 pub fn gen_c17(rng: &mut Rng, tier: Tier) -> C17Plan {
     let nthreads = 2 + rng.usize(3);
     let nsub = 1 + rng.usize(3);
-    // One world in ten is an INHERITANCE world: standard-mode decoders fed PLUSPTYPE
+    // One world in six is an INHERITANCE world: standard-mode decoders fed PLUSPTYPE
     // headers that restate the optional part (OPPTYPE, arbitrary mode bits) or rely on
     // what was carried over (UFEP = 000, often on a decoder that holds no picture yet).
     // What such a call answers must depend on its own instance's history only, whatever
     // headers other instances parse in between (process-wide parse state).
-    let inherit = rng.chance(1, 10);
+    let inherit = rng.chance(1, 6);
     let mix = if inherit { &MIX_INHERIT } else { &MIX_SUB };
     let subplans: Vec<Session> = (0..nsub).map(|_| gen_session(rng, mix)).collect();
     // A "sibling" of sub-plan 0: same sizes, temporal references, picture types,
@@ -453,8 +453,8 @@ impl Property for C17 {
     type Plan = C17Plan;
     const ID: &'static str = "C17";
     const LEVEL: &'static str = "exploration";
-    const CROSS_PROCESS_RUNS: u64 = 3000;
-    const RULE: &'static str = "seeded worlds of 2-4 caller threads owning 3-8 decoder instances (at least two replicas fed the same history, the others unrelated histories including corrupted inputs and source faults that make their decoder fail; one world in ten is an inheritance world of standard-mode decoders fed PLUSPTYPE headers that restate OPPTYPE with arbitrary mode bits or rely on carried-over context with UFEP=000), executed under the simulator's baton scheduler: one thread runs at a time, pre-emption points are every source read and every call boundary, the successor comes from the plan's schedule. Oracles: replicas agree; every instance's history digest (every result and every state digest) equals the digest of the same history run alone and sequentially; the same runs executed in two further fresh processes give identical digests (per-process hash seeds, addresses, lazy statics first used from a non-main thread). evaluations = decode calls made under the scheduler. A case is non-trivial if the schedule actually switched threads while decode calls were in flight; distinct by (context-switch sequence hash, thread step lists).";
+    const CROSS_PROCESS_RUNS: u64 = 6000;
+    const RULE: &'static str = "seeded worlds of 2-4 caller threads owning 3-8 decoder instances (at least two replicas fed the same history, the others unrelated histories including corrupted inputs and source faults that make their decoder fail; one world in six is an inheritance world of standard-mode decoders fed PLUSPTYPE headers that restate OPPTYPE with arbitrary mode bits or rely on carried-over context with UFEP=000, and plain PTYPE headers with optional-mode bits set), executed under the simulator's baton scheduler: one thread runs at a time, pre-emption points are every source read and every call boundary, the successor comes from the plan's schedule. Oracles: replicas agree; every instance's history digest (every result and every state digest) equals the digest of the same history run alone and sequentially; the same runs executed in two further fresh processes give identical digests (per-process hash seeds, addresses, lazy statics first used from a non-main thread). evaluations = decode calls made under the scheduler. A case is non-trivial if the schedule actually switched threads while decode calls were in flight; distinct by (context-switch sequence hash, thread step lists).";
     fn runs(tier: Tier) -> u64 {
         match tier {
             Tier::Quick => 24_000,
